@@ -234,6 +234,15 @@ func tryFastCompound(expression string) *fastCompound {
 	return &fastCompound{op: op, parts: compares}
 }
 
+// maxExactFloatInt is 2^53: every integer of smaller magnitude is exactly
+// representable as a float64, while from 2^53 on distinct integers collapse
+// (2^53+1 becomes 2^53).
+const maxExactFloatInt = 1 << 53
+
+// toFloat64Fast converts the numeric types the fast path handles. 64-bit
+// integers are converted only strictly inside ±2^53: expr-lang compares
+// integers with integer literals exactly (and reads a uint64 through int), so
+// beyond that range the comparison is left to it.
 func toFloat64Fast(v any) (float64, bool) {
 	switch x := v.(type) {
 	case float64:
@@ -241,19 +250,33 @@ func toFloat64Fast(v any) (float64, bool) {
 	case float32:
 		return float64(x), true
 	case int:
-		return float64(x), true
+		return exactIntToFloat64(int64(x))
 	case int64:
-		return float64(x), true
+		return exactIntToFloat64(x)
 	case int32:
 		return float64(x), true
 	case uint:
-		return float64(x), true
+		return exactUintToFloat64(uint64(x))
 	case uint64:
-		return float64(x), true
+		return exactUintToFloat64(x)
 	case uint32:
 		return float64(x), true
 	}
 	return 0, false
+}
+
+func exactIntToFloat64(x int64) (float64, bool) {
+	if x <= -maxExactFloatInt || x >= maxExactFloatInt {
+		return 0, false
+	}
+	return float64(x), true
+}
+
+func exactUintToFloat64(x uint64) (float64, bool) {
+	if x >= maxExactFloatInt {
+		return 0, false
+	}
+	return float64(x), true
 }
 
 func compareNum(a float64, op string, b float64) bool {
